@@ -141,6 +141,24 @@ def _unwrap(ctx, t: T, depth=0):
     elif t.kind == "partial":
         call = res.partial_nodes.get(t.node_id)
         kws = frozenset(k.arg for k in call.keywords if k.arg) if call is not None else frozenset()
+        if call is not None:
+            # partial(f, **kwargs): keys the dict provably carries (dict(...) literal keys and kwargs["k"] = v stores)
+            pf = res.partial_ctx.get(t.node_id)
+            for k in call.keywords:
+                if k.arg is None and isinstance(k.value, ast.Name) and pf is not None:
+                    extra = set()
+                    for kind, node in res.scope(pf).bind.get(k.value.id, []):
+                        if kind == "assign" and isinstance(node, ast.Call) and norm(node.func) == "dict":
+                            extra |= {kk.arg for kk in node.keywords if kk.arg}
+                        elif kind == "assign" and isinstance(node, ast.Dict):
+                            extra |= {kk.value for kk in node.keys if isinstance(kk, ast.Constant)}
+                    for n in walk_own(pf.node):
+                        if isinstance(n, ast.Assign):
+                            for tg in n.targets:
+                                if isinstance(tg, ast.Subscript) and isinstance(tg.value, ast.Name) and tg.value.id == k.value.id \
+                                        and isinstance(tg.slice, ast.Constant):
+                                    extra.add(tg.slice.value)
+                    kws = kws | frozenset(extra)
         npos = len(call.args) - 1 if call is not None else 0
         for (q, k2, p2) in _unwrap(ctx, t.parts[0], depth + 1):
             out.append((q, k2 | kws, p2 + npos))
